@@ -178,7 +178,9 @@ func c12Typed(w *run.Worker) {
 		"%{WORD:o1}", "%{NUMBER:o2:int}", "%{NUMBER:o3:int}", "%{WORD:o4:str}", "%{WORD:o4:bool}",
 		// literal text in front, an alternation further on: the subject may match through a later branch
 		"hello %{INT:n:int}|abc|%{NUMBER:num} big", "^3%{GREEDYDATA:g}$|^tr%{WORD:w}"}
-	texts := []any{"hello 42", "12", "3.5", "true", "abc", "  padded  ", "", " 7 x ", "1.2.3.4 ok", "99999999999999999999 big", int64(42), 2.5, false, nil}
+	texts := []any{"hello 42", "12", "3.5", "true", "abc", "  padded  ", "", " 7 x ", "1.2.3.4 ok", "99999999999999999999 big", int64(42), 2.5, false, nil,
+		// numbers whose string form must be plain decimals (no exponent), whatever their size
+		12345678.0, 0.00005, 1e21, int64(1<<53 + 1), -2500000.5}
 	for _, pat := range patterns {
 		for trim := 0; trim < 3; trim++ {
 			for sit := 0; sit < sitCount; sit++ {
@@ -416,9 +418,11 @@ func c12Time(w *run.Worker) {
 			}
 		}
 	}
-	for _, tx := range []any{int64(1600000000), int64(1600000000123), 2.5, nil} {
-		if w.Take() {
-			run1(tx, nil, sitField)
+	for _, tx := range []any{int64(1600000000), int64(1600000000123), 2.5, nil, 1638253518.0, 1638253518.5, 1.6e12, 12345678.0, 0.00005} {
+		for _, sit := range []int{sitField, sitVar} {
+			if w.Take() {
+				run1(tx, nil, sit)
+			}
 		}
 	}
 	// datetime
@@ -555,7 +559,81 @@ func c12XMLSQL(w *run.Worker) {
 	}
 }
 
+// c12AfterJump: pattern definitions and grok calls that follow a conditional break/continue inside
+// a loop body (reachable code: the jump sits in a nested branch), and after the loop. They are checked,
+// compiled and scoped like anywhere else.
+func c12AfterJump(w *run.Worker) {
+	S, Id := rt.Str, rt.Id
+	def := func() *rt.Node { return rt.Call("add_pattern", S("pa"), S("[a-z]+")) }
+	useLocal := func() *rt.Node { return rt.Call("p", rt.Call("grok", Id("_"), S("%{pa:x}")), Id("x")) }
+	useGlobal := func() *rt.Node { return rt.Call("p", rt.Call("grok", Id("_"), S("%{INT:gi:int}")), Id("gi")) }
+	useUnknown := func() *rt.Node { return rt.Call("p", rt.Call("grok", Id("_"), S("%{nosuch:x}"))) }
+	type tail struct {
+		before, inBody, after []nodeFn
+	}
+	tails := []tail{
+		{inBody: []nodeFn{useGlobal}},
+		{inBody: []nodeFn{def, useLocal}},
+		{inBody: []nodeFn{useUnknown}},
+		{inBody: []nodeFn{useLocal}},
+		{before: []nodeFn{def}, inBody: []nodeFn{useLocal}},
+		{inBody: []nodeFn{def}, after: []nodeFn{useLocal}},
+		{inBody: []nodeFn{def, useLocal}, after: []nodeFn{useGlobal}},
+		{inBody: []nodeFn{useGlobal}, after: []nodeFn{useUnknown}},
+		{after: []nodeFn{useGlobal}},
+		{after: []nodeFn{def, useLocal}},
+	}
+	jumps := []nodeFn{rt.Break, rt.Continue}
+	guards := []func(j *rt.Node) *rt.Node{
+		func(j *rt.Node) *rt.Node { return rt.If(rt.Bool(false), rt.Block(j)) },
+		func(j *rt.Node) *rt.Node { return rt.If(rt.Bool(true), rt.Block(), rt.Block(j)) },
+		func(j *rt.Node) *rt.Node { return rt.If(rt.Bin("==", Id("i"), rt.Int(2)), rt.Block(j)) },
+		func(j *rt.Node) *rt.Node {
+			return rt.If(rt.Bool(false), rt.Block(rt.If(rt.Bool(true), rt.Block(j))))
+		},
+		func(j *rt.Node) *rt.Node { // the jump belongs to an inner loop that has ended
+			return rt.ForIn("q", rt.List(rt.Int(1)), rt.Block(j))
+		},
+	}
+	loops := []func(body *rt.Node) *rt.Node{
+		func(body *rt.Node) *rt.Node { return rt.ForIn("i", rt.List(rt.Int(1), rt.Int(2)), body) },
+		func(body *rt.Node) *rt.Node {
+			return rt.For(rt.Assign("=", Id("i"), rt.Int(1)), rt.Bin("<", Id("i"), rt.Int(3)), rt.Assign("=", Id("i"), rt.Bin("+", Id("i"), rt.Int(1))), body)
+		},
+	}
+	pt := PointSpec{Meas: "m", Fields: map[string]any{"message": "hello 42"}}
+	mk := func(fs []nodeFn) (out []*rt.Node) {
+		for _, f := range fs {
+			out = append(out, f())
+		}
+		return out
+	}
+	for _, t := range tails {
+		for _, j := range jumps {
+			for _, g := range guards {
+				for _, l := range loops {
+					for _, wrap := range []bool{false, true} {
+						if !w.Take() {
+							continue
+						}
+						body := append([]*rt.Node{g(j())}, mk(t.inBody)...)
+						loop := l(rt.Block(body...))
+						stmts := mk(t.before)
+						if wrap {
+							stmts = append(stmts, rt.If(rt.Bool(true), rt.Block(append([]*rt.Node{loop}, mk(t.after)...)...)))
+						} else {
+							stmts = append(append(stmts, loop), mk(t.after)...)
+						}
+						c12Exec(w, "after-jump", stmts, pt, "")
+					}
+				}
+			}
+		}
+	}
+}
+
 func c12Run(w *run.Worker) {
+	c12AfterJump(w)
 	c12XMLSQL(w)
 	c12Time(w)
 	c12Typed(w)
@@ -591,6 +669,7 @@ func init() {
 		Level: "model_checking",
 		Rule: "(1) every placement of up to 3 add_pattern definitions (one referring to the other two) and a grok call using a local, a dependent or a global pattern over the 8 slots of a 3-level block skeleton (top, if, nested if/else, else, for body, after), definition before or after the use: load verdict and run-time captures; a name defined at the top and again in each of the 8 slots, used by grok / a composite definition in each slot, before or after the inner definition and once more after all blocks; " +
 			"(2) 14 patterns (all capture types, convertible and inconvertible text, pattern capturing into its own subject) x trim_space {absent,true,false} x 6 subject situations x 14 subject values; " +
+			"(1b) 10 arrangements of definitions and grok calls after a conditional break/continue in a loop body and after the loop x 2 jumps x 5 guards (never taken, else branch, taken in the second round, nested, jump of an inner loop) x 2 loop kinds x plain / inside an if block; subjects include floats and ints whose string form must be plain decimals (12345678.0, 0.00005, 1e21, 2^53+1); " + 
 			"(3) default_time on the 66 documented layouts + 6 house layouts + non-timestamps, every house layout written for 5 instants x {padded, unpadded day/hour} x 6 numeric zones (positive, negative, half-hour) x 3 zone arguments, 4 base timestamps x 21 zone arguments (fixed-offset labels, IANA names, invalid) x subject situations, every numeric label of the documented table (DST-free ones in January, southern ones in July); datetime over 18 formats x 4 precisions x 16 epoch values (incl. floats with a fractional part) x 3 situations; " +
 			"(4) xml: 20 documents (well-formed, and malformed in ways a lenient decoder tolerates) x 13 XPath queries x 4 destination spellings x subject situations; (5) sql_cover: 20 strings x 5 situations, all ordered pairs of 6 backslash-bearing statements in one run; oracle: whole final point incl. time, probe trace (grok's boolean), load verdict",
 		Assumptions: []string{"grok, xmlquery/xpath, dateparse, time, obfuscate are the trusted engines, called directly by the reference", "zone labels are checked against fixed offsets for DST-free zones / winter dates; DST-in-January labels, the CST label and year-less layouts are unspecified cells; IANA names incl. UTC are also run with summer and DST-switch dates", "the text of the failure note after the prefix `time convert failed` is not compared"},
